@@ -84,7 +84,10 @@ def gen_family(seed, idx):
     for o in ops:
         if o["op"] == "kernel":
             o.update(gen_kernel_probe(rng))
-    return {"check": "c12", "subject": subject, "init_state": init_state, "ops": ops, "array_flavour": rng.pick(["C", "C", "F", "strided", "readonly"])}
+    flavour = rng.pick(["C", "C", "F", "strided", "readonly", "single"])
+    if flavour == "single" or rng.chance(0.06):
+        subject["config"]["dtype"] = "float32"
+    return {"check": "c12", "subject": subject, "init_state": init_state, "ops": ops, "array_flavour": flavour}
 
 
 KERNELS = ("permanent", "permanent_laplace", "hafnian", "loop_hafnian", "loop_hafnian_batch", "pfaffian", "polar", "svd", "schur", "logm", "real_logm", "expm", "powm", "sqrtm", "block", "block_diag", "transpose", "embed_in_identity", "calculate_interferometer_on_fock_space", "torontonian")
